@@ -37,6 +37,14 @@ class AffineQuantizer(Function):
         stride = base.stride()
         if group_size is not None:
             base = group(base, axis=axis, group_size=group_size)
+        if base.ndim > 1:
+            # The scale and zeropoint must hold one value per index of the quantization axis of the (grouped) base
+            if scale.ndim != base.ndim or scale.shape[axis] != base.shape[axis] or scale.numel() != base.shape[axis]:
+                raise ValueError(
+                    f"The scale must hold one value per index of axis {axis} to quantize a Tensor of shape {tuple(base.shape)}"
+                )
+            if zeropoint.shape != scale.shape:
+                raise ValueError("The zeropoint must have the same shape as the scale")
         bits = qtype.bits
         data = torch.clamp(torch.round(base / scale) + zeropoint, min=0, max=2**bits - 1).to(torch.uint8)
 
